@@ -793,6 +793,38 @@ var decoderFuncs = map[string]int{"encoding/json.Unmarshal": 1, "(*encoding/json
 
 // zeroLocalTarget reports the local variable a decoder call fills when that variable still holds its
 // zero value at the call (nothing pre-existing is reachable from it): no other write to it can precede the call.
+// freshOnlyHere: v is a map made in this function whose only use is being stored by st
+func freshOnlyHere(v ssa.Value, st *ssa.Store) bool {
+	mm, ok := v.(*ssa.MakeMap)
+	if !ok || mm.Referrers() == nil {
+		return false
+	}
+	for _, r := range *mm.Referrers() {
+		if r == ssa.Instruction(st) {
+			continue
+		}
+		if _, dbg := r.(*ssa.DebugRef); dbg {
+			continue
+		}
+		return false
+	}
+	return true
+}
+
+// decoderFreshMaps lists the empty maps stored into the decoder's target variable before the call
+func decoderFreshMaps(a *ssa.Alloc) []ssa.Value {
+	var out []ssa.Value
+	if a.Referrers() == nil {
+		return nil
+	}
+	for _, r := range *a.Referrers() {
+		if st, ok := r.(*ssa.Store); ok && st.Addr == ssa.Value(a) && freshOnlyHere(st.Val, st) {
+			out = append(out, st.Val)
+		}
+	}
+	return out
+}
+
 func zeroLocalTarget(call ssa.Instruction, arg ssa.Value) *ssa.Alloc {
 	boxed := arg
 	if mi, ok := arg.(*ssa.MakeInterface); ok {
@@ -810,11 +842,27 @@ func zeroLocalTarget(call ssa.Instruction, arg ssa.Value) *ssa.Alloc {
 		}
 		return -1
 	}
+	// after(r): no execution reaches the call after having executed r
 	after := func(r ssa.Instruction) bool {
 		if r.Block() == call.Block() {
-			return idx(r) > idx(call)
+			return idx(r) > idx(call) && !inCycle(call.Block())
 		}
-		return call.Block().Dominates(r.Block())
+		// r precedes the call on some path iff the call's block is reachable from r's block
+		seen := map[*ssa.BasicBlock]bool{}
+		stack := append([]*ssa.BasicBlock(nil), r.Block().Succs...)
+		for len(stack) > 0 {
+			x := stack[len(stack)-1]
+			stack = stack[:len(stack)-1]
+			if x == call.Block() {
+				return false
+			}
+			if seen[x] {
+				continue
+			}
+			seen[x] = true
+			stack = append(stack, x.Succs...)
+		}
+		return true
 	}
 	var writes func(v ssa.Value, depth int) bool // some write through v is not after the call
 	writes = func(v ssa.Value, depth int) bool {
@@ -828,6 +876,9 @@ func zeroLocalTarget(call ssa.Instruction, arg ssa.Value) *ssa.Alloc {
 			switch x := r.(type) {
 			case *ssa.Store:
 				if x.Addr == v && !after(r) {
+					if depth == 0 && freshOnlyHere(x.Val, x) {
+						continue // the variable holds an empty map made for it: decoding fills that map or replaces it
+					}
 					return true
 				}
 				if x.Val == v {
